@@ -801,6 +801,202 @@ def rule_escape_siblings(ctx):
                       % ("".join(sym[c] for c in cs), "".join(sym[c] for c in out), "".join(sym[c] for c in want)))
 
 
+def rule_smart_flags(ctx):
+    """Non-ASCII half of Atom::new_inner, per stored character (one iteration of the escape loop / one call of the
+    map closure), per decision path:
+      CaseMatching::Smart      ⇒ ignore_case' = ignore_case && !is_upper(c)   (is_upper_case, or is_ascii_uppercase on a
+                                  path where c is known to be ASCII) — for EVERY character that can be a letter
+      CaseMatching::Ignore     ⇒ the stored character is the case-folded one
+      Normalization::Smart     ⇒ normalize' = normalize && normalize(c) == c   (may be skipped for ASCII c: never normalized)
+    i.e. smart case ignores case exactly when the atom has no upper-case character."""
+    from cfg import decision_paths
+    facts = ctx.facts
+    fn = get_fn(facts, M, "pattern::Atom::new_inner")
+    cm = facts.adt(M, "pattern::CaseMatching")
+    nm_ = facts.adt(M, "pattern::Normalization")
+    if cm is None or nm_ is None:
+        raise Inconclusive("CaseMatching / Normalization not found")
+    case_names = {v["discr"]: v["name"] for v in cm["variants"]}
+    norm_names = {v["discr"]: v["name"] for v in nm_["variants"]}
+    # the two flag locals: operands of the final Atom literal
+    lit = [s_ for bi, si, s_ in fn.stmts(lambda s_: s_["k"] == "assign" and s_["rv"].get("agg") == "adt" and str(s_["rv"].get("adt", "")).endswith("pattern::Atom"))]
+    if len(lit) != 1:
+        raise Inconclusive("Atom literal not found in new_inner")
+    names = lit[0]["rv"]["fields"]
+
+    def flag_local(field):
+        e = fn.expr_of_operand(lit[0]["rv"]["ops"][names.index(field)])
+        while e[0] in ("ref", "deref", "cast"):
+            e = e[2] if e[0] == "cast" else e[1]
+        if e[0] != "local":
+            raise Inconclusive("Atom.%s is not a (re-assigned) local of new_inner: %s" % (field, show(e)[:60]))
+        return e[1]
+    L_IC, L_NZ = flag_local("ignore_case"), flag_local("normalize")
+    regions = []   # (label, fn, paths, is_char, old_flag(e, which), new_flag(env, which), stored(env, res), case_expr_pred, norm_expr_pred)
+
+    def unref(e):
+        while isinstance(e, tuple) and e and e[0] in ("ref", "deref", "cast"):
+            e = e[2] if e[0] == "cast" else e[1]
+        return e
+    # ---- region 1: loops of new_inner that push char-derived values into the char vector
+    for h, body, srcs in fn.loops():
+        pushes = [bi for bi, t in fn.calls(lambda t: callee(t).endswith("Vec::<T, A>::push")) if bi in body]
+        if not pushes:
+            continue
+        exits = sorted(set(b for a, b in fn.loop_exits((h, body, srcs))))
+        paths = decision_paths(fn, start=h, stops=set([h]) | set(exits), free_locals=True, limit=20000)
+        nxt = set()
+        for conds, res, env in paths:
+            for d, chosen, allv in conds:
+                if d[0] == "discr" and d[1][0] == "call" and str(d[1][1]).endswith("::next"):
+                    nxt.add(d[1][4])
+        if len(nxt) != 1:
+            continue
+        nid = list(nxt)[0]
+        if not any("graphemes" in str(x[1]) for conds, res, env in paths for d, c_, a_ in conds for x in walk(d) if x[0] == "call"):
+            pass
+        is_char = (lambda nid: lambda e: any(x[0] == "call" and len(x) > 4 and x[4] == nid for x in walk(e)))(nid)
+        old_flag = lambda e, L: unref(e)[0] in ("free", "local") and unref(e)[1] == L
+        def new_flag(env, L, old_flag=old_flag):
+            if L in env:
+                return env[L]
+            # updated through a `&mut flag` held by an (inlined) closure: recorded as a store to the flag's old value
+            val = None
+            for k_, v_ in env.items():
+                if isinstance(k_, tuple) and k_[0] == "store" and isinstance(v_, tuple) and v_[0] == "store" and v_[1] is not None and old_flag(v_[1], L):
+                    val = v_[2]
+            return val
+
+        def stored(env, res, is_char=is_char):
+            out = []
+            for name, cid, cargs in env.get("#calls", ()):
+                if str(name).endswith("Vec::<T, A>::push") and is_char(cargs[1]):
+                    out.append(cargs[1])
+            return out
+        case_pred = lambda e: unref(e)[0] == "arg" and unref(e)[1] == 2
+        norm_pred = lambda e: unref(e)[0] == "arg" and unref(e)[1] == 3
+        iter_paths = [(c_, r_, e_) for c_, r_, e_ in paths if r_[0] == "stop" and r_[1] == h]
+        regions.append(("escape loop", fn, iter_paths, is_char, old_flag, new_flag, stored, case_pred, norm_pred, {"ic": L_IC, "nz": L_NZ}, h))
+    # ---- region 2: closures created in new_inner that return a char computed from their char argument
+    for cbi, csi, clocal, cpath, caps in closure_creations(fn):
+        cf = get_fn(facts, M, cpath)
+        if cf.arg_count != 2 or cf.b["locals"][2]["ty"] != "char" or cf.b["locals"][0]["ty"] != "char":
+            continue
+        cap_of = {}
+        for cn in caps:
+            rc = resolve_capture(cf, cn)
+            if rc is not None:
+                x = unref(rc[1])
+                if x[0] == "local":
+                    cap_of[cn] = x[1]
+                elif x[0] == "arg":
+                    cap_of[cn] = ("arg", x[1])
+        ic_caps = [cn for cn, l in cap_of.items() if l == L_IC]
+        nz_caps = [cn for cn, l in cap_of.items() if l == L_NZ]
+        case_caps = [cn for cn, l in cap_of.items() if l == ("arg", 2)]
+        norm_caps = [cn for cn, l in cap_of.items() if l == ("arg", 3)]
+        paths = decision_paths(cf, with_env=True)
+
+        def cap_field(e, names_):
+            e = unref(e)
+            return e[0] == "field" and e[2] in names_ and unref(e[1])[0] == "arg" and unref(e[1])[1] == 1
+        is_char = lambda e: any(x[0] == "arg" and x[1] == 2 for x in walk(e))
+        old_flag = (lambda ic_caps, nz_caps: lambda e, L: cap_field(e, ic_caps if L == "ic" else nz_caps))(ic_caps, nz_caps)
+
+        def new_flag(env, L, ic_caps=ic_caps, nz_caps=nz_caps):
+            want = ic_caps if L == "ic" else nz_caps
+            val = None
+            for k_, v_ in env.items():
+                if isinstance(k_, tuple) and k_[0] == "store" and isinstance(v_, tuple) and v_[0] == "store" and v_[1] is not None and cap_field(v_[1], want):
+                    val = v_[2]
+            return val
+        stored = lambda env, res: [res] if res is not None else []
+        case_pred = (lambda case_caps: lambda e: cap_field(e, case_caps))(case_caps)
+        norm_pred = (lambda norm_caps: lambda e: cap_field(e, norm_caps))(norm_caps)
+        regions.append(("closure " + cpath.rsplit("::", 1)[-1], cf, paths, is_char, old_flag, new_flag, stored, case_pred, norm_pred, {"ic": "ic", "nz": "nz"}, 0))
+    ctx.floor("per-character regions of the non-ASCII half", len(regions), 2)
+
+    def has_call(e, suffixes, is_char):
+        return any(x[0] in ("call", "call_mut") and any(str(x[1]).endswith(sfx) for sfx in suffixes) and is_char(x) for x in walk(e))
+
+    for label, rf, paths, is_char, old_flag, new_flag, stored, case_pred, norm_pred, FL, where in regions:
+        n_smart = n_ignore = n_norm = 0
+        problems = []
+        for conds, res, env in paths:
+            cases = set(case_names.values())
+            norms = set(norm_names.values())
+            ascii_c = False
+            pinned = False
+            old_ic = old_nz = None
+            for d, chosen, allv in conds:
+                dd = d
+                if dd[0] == "discr":
+                    tgt = dd[1]
+                    for pred, names_, cur in ((case_pred, case_names, "c"), (norm_pred, norm_names, "n")):
+                        if pred(tgt):
+                            if chosen is not None:
+                                sel = {names_.get(chosen)}
+                            else:
+                                sel = set(names_.values()) - {names_.get(v) for v in allv}
+                            if cur == "c":
+                                cases &= sel
+                            else:
+                                norms &= sel
+                truth = (chosen != 0) if chosen is not None else True
+                d0 = strip_casts(dd)
+                if d0[0] == "call" and str(d0[1]).endswith("is_ascii") and is_char(d0) and truth:
+                    ascii_c = True
+                if d0[0] == "bin" and d0[1] == "Eq" and truth and any(is_char(x) for x in (d0[2], d0[3])) and any(strip_casts(x)[0] == "const" for x in (d0[2], d0[3])):
+                    pinned = True   # c is one specific character (space / backslash handling)
+                if old_flag(dd, FL["ic"]):
+                    old_ic = truth
+                if old_flag(dd, FL["nz"]):
+                    old_nz = truth
+            st_vals = stored(env, res)
+            if not st_vals or pinned:
+                continue
+            if "Smart" in cases:
+                n_smart += 1
+                nv = new_flag(env, FL["ic"])
+                upper = ("chars::is_upper_case", "is_ascii_uppercase") if ascii_c else ("chars::is_upper_case",)
+                good = False
+                if old_ic is False:
+                    good = nv is None or (strip_casts(nv)[0] == "const" and not strip_casts(nv)[1])
+                elif nv is not None:
+                    v0 = strip_casts(nv)
+                    if v0[0] == "un" and v0[1] == "Not" and has_call(v0[2], upper, is_char):
+                        good = True
+                    if v0[0] == "bin" and v0[1] == "BitAnd" and any(strip_casts(x)[0] == "un" and has_call(x, upper, is_char) for x in (v0[2], v0[3])):
+                        good = True
+                if not good:
+                    problems.append(("smart-case", "under CaseMatching::Smart a character%s is stored without `ignore_case &&= !is_upper_case(c)` (new flag value: %s): an atom with an upper-case letter there is matched case-insensitively"
+                                     % (" known to be ASCII" if ascii_c else "", show(nv)[:60] if nv is not None else "unchanged")))
+            if "Ignore" in cases and len(cases) == 1:
+                n_ignore += 1
+                lower = ("chars::to_lower_case", "to_ascii_lowercase", "make_ascii_lowercase") if ascii_c else ("chars::to_lower_case",)
+                if not all(has_call(v, lower, is_char) for v in st_vals):
+                    problems.append(("ignore-fold", "under CaseMatching::Ignore a character is stored without case folding: %s" % show(st_vals[0])[:60]))
+            if "Smart" in norms and not ascii_c:
+                n_norm += 1
+                nv = new_flag(env, FL["nz"])
+                good = False
+                if old_nz is False:
+                    good = nv is None or (strip_casts(nv)[0] == "const" and not strip_casts(nv)[1])
+                elif nv is not None:
+                    good = has_call(nv, ("chars::normalize::normalize", "chars::normalize"), is_char) and any(x[0] == "bin" and x[1] == "Eq" for x in walk(nv))
+                if not good:
+                    problems.append(("smart-normalize", "under Normalization::Smart a non-ASCII character is stored without `normalize &&= normalize(c) == c` (new flag value: %s)" % (show(nv)[:60] if nv is not None else "unchanged")))
+        if problems:
+            kinds_ = sorted(set(k for k, _ in problems))
+            for k in kinds_:
+                msg = [m for kk, m in problems if kk == k][0]
+                ctx.violation("pattern::Atom::new_inner|%s|%s" % (k, label.split()[0]), site(rf, where), "%s: %s" % (label, msg))
+        else:
+            ctx.ok(site(rf, where), "%s: smart case / ignore-case folding / smart normalization applied to every stored character (%d Smart, %d Ignore, %d Smart-normalization paths)" % (label, n_smart, n_ignore, n_norm))
+        if n_smart == 0:
+            ctx.fail_closed("%s: no decision path runs under CaseMatching::Smart" % label)
+
+
 def rules(ctx):
     ctx.run_rule("C14.parse-twins", rule_parse_twins)
     ctx.run_rule("C14.new-is-literal", rule_new_is_literal)
@@ -808,3 +1004,4 @@ def rules(ctx):
     ctx.run_rule("C14.split-table", rule_split_table)
     ctx.run_rule("C14.case-source", rule_case_source)
     ctx.run_rule("C14.escape-siblings", rule_escape_siblings)
+    ctx.run_rule("C14.smart-flags", rule_smart_flags)
